@@ -221,13 +221,51 @@ def _is_mask(m):
     return m >= 0 and (m & (m + 1)) == 0
 
 
+def _const_bits(c):
+    """bit hull [lo, hi) of a non-negative python int constant (None if negative)"""
+    if c < 0:
+        return None
+    if c == 0:
+        return (0, 0)
+    lo = (c & -c).bit_length() - 1
+    return (lo, c.bit_length())
+
+
+def _bits_of(x):
+    if isinstance(x, SInt):
+        return x.bits
+    if isinstance(x, bool):
+        return (0, 1)
+    if isinstance(x, int):
+        return _const_bits(x)
+    return None
+
+
+def _runs(c):
+    """decompose a non-negative constant into runs of consecutive one bits: [(shift, width), ...]"""
+    out = []
+    i = 0
+    while c >> i:
+        if (c >> i) & 1:
+            j = i
+            while (c >> j) & 1:
+                j += 1
+            out.append((i, j - i))
+            i = j
+        else:
+            i += 1
+    return out
+
+
 class SInt:
-    """symbolic Python int (mathematical integer)"""
+    """symbolic Python int (mathematical integer).  `bits` = optional hull [lo, hi): the value is non-negative and only
+    bits lo..hi-1 can be set (established by masking/shifting); lets `|` of disjoint fields be plain addition."""
 
-    __slots__ = ("e",)
+    __slots__ = ("e", "bits")
 
-    def __init__(self, e):
+    def __init__(self, e, bits=None):
         self.e = e
+        self.bits = bits
 
     # -- arithmetic
     def _b(self, o, f):
@@ -373,7 +411,7 @@ class SInt:
             k = k.concrete_or_none()
         if not isinstance(k, int):
             raise Unmodelled("shift by symbolic amount")
-        return SInt(s.e * (1 << k))
+        return SInt(s.e * (1 << k), None if s.bits is None else (s.bits[0] + k, s.bits[1] + k))
 
     def __rlshift__(s, o):
         # o << s : enumerate (forks) over a small range
@@ -385,7 +423,8 @@ class SInt:
             k = k.concrete_or_none()
         if not isinstance(k, int):
             raise Unmodelled("shift by symbolic amount")
-        return SInt(pyfloordiv(s.e, z3.IntVal(1 << k)))
+        return SInt(pyfloordiv(s.e, z3.IntVal(1 << k)),
+                    None if s.bits is None else (max(s.bits[0] - k, 0), max(s.bits[1] - k, 0)))
 
     def __rrshift__(s, o):
         k = s.small_value(0, 64)
@@ -401,13 +440,25 @@ class SInt:
         return SInt(z3.BV2Int(f(a, b), True))
 
     def __and__(s, o):
-        if isinstance(o, int) and not isinstance(o, bool) and _is_mask(o):
-            return SInt(pymod(s.e, z3.IntVal(o + 1)))
+        if isinstance(o, int) and not isinstance(o, bool) and o >= 0:
+            # exact arithmetic form for any non-negative constant: sum over its runs of one-bits
+            r = z3.IntVal(0)
+            for sh, w in _runs(o):
+                r = r + pymod(pyfloordiv(s.e, z3.IntVal(1 << sh)), z3.IntVal(1 << w)) * (1 << sh)
+            return SInt(r, _const_bits(o))
         return s._bv(o, lambda a, b: a & b)
 
     __rand__ = __and__
 
     def __or__(s, o):
+        bs, bo = s.bits, _bits_of(o)
+        if bs is not None and bo is not None and (bs[1] <= bo[0] or bo[1] <= bs[0] or bs[0] == bs[1] or bo[0] == bo[1]):
+            l = lift(o)
+            lo = min(b[0] for b in (bs, bo) if b[0] != b[1]) if (bs[0] != bs[1] or bo[0] != bo[1]) else 0
+            hi = max(bs[1], bo[1])
+            return SInt(s.e + l, (lo, hi))  # disjoint bit fields: OR == ADD
+        if isinstance(o, int) and not isinstance(o, bool) and o >= 0:
+            return s + o - (s & o)
         return s._bv(o, lambda a, b: a | b)
 
     __ror__ = __or__
